@@ -228,7 +228,73 @@ def monitorAuto (script : List Cmd) (iters : List Iter) (d : Nat) : Option Strin
           s!"removed-address-still-sent-by-auto-addressed-service ip={j.ip} t={p.t}"
     missing <|> stale
 
+/-- "instances that lost other records are resolved again with what is left": an interface
+    vanishes from the table.  An instance whose LAST ServiceResolved on an open browse channel
+    before the change tags an address with that interface and also with one that stays, and whose
+    PTR, SRV and TXT were delivered on an interface that stays (the instance is not removed, it
+    can still be resolved), gets - once the interface check has run - a new ServiceResolved on that
+    channel that tags no address with the vanished interface (or a ServiceRemoved).  Judged in
+    histories without selections, stops, shutdown and registrations. -/
+def monitorReresolved (script : List Cmd) (iters : List Iter) (d : Nat) : Option String :=
+  let changes := script.zipIdx.filterMap fun ((c, i) : Cmd × Nat) =>
+    match c with | .ifaces d' ifs => if d' == d then some (i, ifs) else none | _ => none
+  let busy := script.any fun c => match c with
+    | .other ("enable" :: _) | .other ("disable" :: _) | .stopBrowse .. | .shutdown .. | .register .. | .verify .. => true
+    | _ => false
+  -- (one change of the table per history: after a second one, what was heard where before the
+  -- first is no longer what the cache holds)
+  if changes.length != 1 || busy then none else
+  let table0 := ((script.filterMap fun c => match c with | .daemon ifs => some ifs | _ => none)[d]?).getD []
+  let ipint := (script.filterMap fun c => match c with | .ipint d' s => if d' == d then some s else none | _ => none).getLast?.getD 5
+  if ipint == 0 || ipint > 10 then none else
+  let ds := deliveries iters d
+  let calls := processedCalls script iters cmdDaemon
+  let itArr := iters.toArray
+  let timeOfIter (k : Nat) : Nat := (itArr[k]?.map (·.now)).getD 0
+  let scriptTime (i : Nat) : Nat := (script.take i).foldl (fun acc c => match c with | .run u => u | .now u => u | _ => acc) 0
+  let tEnd := script.foldl (fun acc c => match c with | .run u => max acc u | _ => acc) 0
+  let tStart := (iters.head?.map (·.now)).getD 0
+  let tables := table0 :: changes.map (·.2)
+  let browses := calls.filterMap fun ((c, k0) : Cmd × Nat) =>
+    match c with | .browse d' ch ty false => if d' == d then some (ty, ch, k0) else none | _ => none
+  (changes.zipIdx).findSome? fun (((ci, ifs), n) : (Nat × List Trace.Iface) × Nat) =>
+    let before := (tables[n]?).getD []
+    let tc := scriptTime ci
+    let tNext := ((changes.filter fun c => c.1 > ci).map fun c => scriptTime c.1).foldl min tEnd
+    let effective := max tc (tStart + 5000) + ipint * 1000 + 1000
+    if effective ≥ tNext then none else
+    let gone := ((before.map (·.index)).eraseDups).filter fun idx => !(ifs.any fun i => i.index == idx)
+    let stays (idx : Nat) : Bool := ifs.any fun i => i.index == idx
+    gone.findSome? fun idx =>
+      browses.findSome? fun ((ty, ch, k0) : BList × Nat × Nat) =>
+        if timeOfIter k0 ≥ tc then none else
+        -- a later browse of the same type replaces the channel: judged up to then
+        let tLimit := ((browses.filter fun b => b.1 == ty && b.2.2 > k0).map fun b => timeOfIter b.2.2).foldl min tNext
+        if effective ≥ tLimit then none else
+        let evs := (chanEvents iters d ch).map fun e => (timeOfIter e.1, e.2)
+        let resolvedEvs := evs.filterMap fun e => (parseResolved e.2).map fun r => (e.1, r)
+        let names := (resolvedEvs.map fun e => e.2.fullname).eraseDups
+        names.findSome? fun f =>
+          match (resolvedEvs.filter fun e => e.1 < tc && e.2.fullname == f).getLast? with
+          | none => none
+          | some (_, r) =>
+            let tagged := r.addrs.any fun a => a.ifs.any fun i => i.2 == idx
+            let alsoElsewhere := r.addrs.any fun a => a.ifs.any fun i => i.2 != idx && stays i.2
+            let heardOnStaying (p : Deliv → Bool) : Bool := ds.any fun x => x.t < tc && x.ifi != idx && stays x.ifi && p x
+            let ptrStays := heardOnStaying fun x => x.r.ty == 12 && (match x.r.rdata with | .ptr g => lower g == lower f | _ => false)
+            let srvStays := heardOnStaying fun x => x.r.ty == 33 && lower x.r.name == lower f
+            let txtStays := heardOnStaying fun x => x.r.ty == 16 && lower x.r.name == lower f
+            if !(tagged && alsoElsewhere && ptrStays && srvStays && txtStays) then none else
+            let again := evs.any fun e => e.1 ≥ tc && e.1 ≤ tLimit &&
+              ((match parseResolved e.2 with
+                | some r' => r'.fullname == f && !(r'.addrs.any fun a => a.ifs.any fun i => i.2 == idx)
+                | none => false) ||
+               (e.2.headD "" == "removed" && e.2[2]? == some (hexOfBytes f)))
+            if again then none
+            else some s!"instance-not-resolved-again-without-the-vanished-interface inst={hexOfBytes f} ch={ch} if={idx} by={effective}"
+
 def monitor (script : List Cmd) (iters : List Iter) (d : Nat) : Option String :=
-  monitorStatic script iters d <|> monitorVanished script iters d <|> monitorAuto script iters d
+  monitorStatic script iters d <|> monitorVanished script iters d <|> monitorAuto script iters d <|>
+    monitorReresolved script iters d
 
 end Mdns.Driver.MonLink
